@@ -34,11 +34,13 @@ def build(tier):
         ]
     obs.append(Ob('O2-l1out', u, 'h_l1out', 'computeL1Out orders the two accumulator halves by side to move', unwind=65, functions=F[3:4], bounds='both sides to move, depth 0', stubs=st))
     # extended: colour-swap symmetry of one hand-mirrored end-game rule (the only part of EndGameEval that is straight-line bitboard code small enough to encode whole)
-    ue = Unit('endgame', 'C07/endgame.cpp', ['h_bishoppawn_sym', 'h_bishoppawn_mirror'], aliases={'_ZN7BitUtil8firstBitEm': 'model_firstBit', '_ZN7BitUtil7lastBitEm': 'model_lastBit', '_ZN7BitUtil8bitCountEm': 'model_bitCount'},
-              allow_extern=[r'_ZN11NNEvaluator.*', r'_ZN11EndGameEval(?!16isBishopPawnDraw).*', r'_ZN7MoveGen.*', r'_ZN8BitBoard.*', r'_ZN6TBProbe.*', r'_ZNSt.*', r'_ZSt.*', r'_Z\w*kpkTable.*', r'_Z\w*krkpTable.*', r'_Z.*interpolate.*'])
+    ue = Unit('endgame', 'C07/endgame.cpp', ['h_bishoppawn_sym', 'h_bishoppawn_mirror', 'h_kpkp_sym'], aliases={'_ZN7BitUtil8firstBitEm': 'model_firstBit', '_ZN7BitUtil7lastBitEm': 'model_lastBit', '_ZN7BitUtil8bitCountEm': 'model_bitCount'},
+              allow_extern=[r'_ZN11NNEvaluator.*', r'_ZN11EndGameEval(?!16isBishopPawnDraw|8kpkpEval).*', r'_ZN7MoveGen.*', r'_ZN8BitBoard.*', r'_ZN6TBProbe.*', r'_ZNSt.*', r'_ZSt.*', r'_Z\w*kpkTable.*', r'_Z\w*krkpTable.*', r'_Z.*interpolate.*'])
     obs.append(Ob('O4-bishoppawn-symmetry', ue, 'h_bishoppawn_sym', 'EndGameEval::isBishopPawnDraw<white>(P) == isBishopPawnDraw<black>(colour-swapped P) for every board', unwind=65, core=False, timeout=1800, mem_gb=16, backend='kissat',
                   functions=['EndGameEval::isBishopPawnDraw<true/false> (endGameEval.cpp:587-720)'], stubs=['firstBit/lastBit/bitCount -> ctz/clz/popcount (proved in C01-O1)'],
                   bounds='all 13^64 boards with one king each and no pawn on ranks 1/8, both sides to move; material sums computed from the board with the default piece values'))
+    obs.append(Ob('O4c-kpkp-symmetry', ue, 'h_kpkp_sym', 'EndGameEval::kpkpEval (blocked b/g-pawn fortress of K+P v K+P, four hand-mirrored copies): same verdict and score for the left-right mirrored and for the colour-swapped position', unwind=4, core=False, timeout=600,
+                  functions=['EndGameEval::kpkpEval (endGameEval.cpp:985-1015)'], bounds='any king squares, any pawn squares on ranks 2..7, any incoming score'))
     for par, txt in ((0, 'the side has at least one bishop'), (1, 'the side has NO bishop')):
         obs.append(Ob('O4b-bishoppawn-mirror@%d' % par, ue, 'h_bishoppawn_mirror', 'EndGameEval::isBishopPawnDraw<white>(P) == isBishopPawnDraw<white>(left-right mirrored P), ' + txt, unwind=65, core=False, param=par, timeout=1800, mem_gb=16, backend='kissat',
                       functions=['EndGameEval::isBishopPawnDraw<true> (endGameEval.cpp:587-720)'], stubs=['firstBit/lastBit/bitCount -> ctz/clz/popcount (proved in C01-O1)'],
@@ -53,4 +55,10 @@ def build(tier):
                       functions=['Evaluate::evalPos<false> (evaluate.cpp:73-118)', 'Position::historyHash (position.hpp:304-315)', 'moveCntKeys[], halfMoveFactor[] (dumped natively)', 'interpolate', 'clamp'],
                       stubs=['NNEvaluator::eval, Evaluate::materialScore -> one arbitrary value per run (same board)', 'getEvalHashEntry -> the slot chosen by the harness', 'mhd->endGame = false'],
                       bounds='any hash key, side, material sums, piece sets, contempt in [-2000,2000]; half-move clocks 0..200 each; network output in [-20000,20000], material score in [-5000,5000]'))
-    return [u, ue, uc], obs
+    # ---- O6: overwriting a connected Position by assignment invalidates the incremental state
+    up = Unit('poscopy', 'C07/poscopy.cpp', ['h_poscopy'], aliases={'_ZN11NNEvaluator13forceFullEvalEb': 'model_forceFullEval'}, allow_extern=[r'_ZN11NNEvaluator(?!13forceFullEval).*'])
+    for par, txt in ((0, 'copy-assignment'), (1, 'move-assignment')):
+        obs.append(Ob('O6-poscopy@%d' % par, up, 'h_poscopy', 'Position %s onto a position an evaluator is connected to: the whole state is replaced, the connection is kept and the evaluator is told to recompute from scratch (exactly once)' % txt,
+                      unwind=66, param=par, core=True, timeout=600, functions=['Position::operator= (position.cpp:80-92)', 'Position::forceFullEval'], stubs=['NNEvaluator::forceFullEval -> recorder (its effect: O1-pushpop)'],
+                      bounds='arbitrary contents of both positions'))
+    return [u, ue, uc, up], obs
